@@ -156,6 +156,9 @@ class CodeBuilder:
     def reset(self) -> None:
         self.lines.reset()
         self.globals = globals().copy()
+        # type names are rendered into the code, and types.MappingProxyType
+        # is named "mappingproxy", which is neither a builtin nor importable
+        self.globals[types.MappingProxyType.__name__] = types.MappingProxyType
         self.resolved_type_params = resolve_type_params(
             self.cls, self.initial_type_args
         )
